@@ -146,16 +146,15 @@ Proof.
   destruct (add_exception s q e) as [s1 o1] eqn:A. apply add_event_budget in A.
   destruct (run_stoppers s1 rest e) as [s2 o2] eqn:R. apply IH in R. invpairs. eapply budget_trans; eauto.
 Qed.
-Lemma tm_dispatch_error_budget : forall s k r s' o, tm_dispatch_error s k r = Ok (s', o) -> budget_ok s s' o.
+Lemma tm_dispatch_error_budget : forall s k r s' o, tm_dispatch_error s k r = (s', o) -> budget_ok s s' o.
 Proof.
-  intros s k r s' o H. unfold tm_dispatch_error in H. destruct (outgoing s); [|inversion H; subst; apply budget_refl].
-  destruct (collect_stoppers r l); cbn in H; [|discriminate]. inversion H.
-  destruct (run_stoppers s a (wrap_error k)) eqn:R. apply run_stoppers_budget in R. inversion H1. subst. exact R.
+  intros s k r s' o H. unfold tm_dispatch_error in H. destruct (outgoing s); [|invpairs; apply budget_refl].
+  eapply run_stoppers_budget; eauto.
 Qed.
 Lemma mm_dispatch_error_budget : forall s k r s' o, mm_dispatch_error s k r = (s', o) -> budget_ok s s' o.
 Proof.
   intros s k r s' o H. unfold mm_dispatch_error in H. destruct (exchanges s); [|invpairs; apply budget_refl].
-  destruct (tm_dispatch_error s k r) as [[s1 o1]|e] eqn:T; [|invpairs; apply budget_frame; reflexivity].
+  destruct (tm_dispatch_error s k r) as [s1 o1] eqn:T.
   apply tm_dispatch_error_budget in T. invpairs. intros q. specialize (T q). exact T.
 Qed.
 Lemma retransmit_budget : forall s r mid s' o, _retransmit s r mid = (s', o) -> budget_ok s s' o.
@@ -163,8 +162,7 @@ Proof.
   intros s r mid s' o H. unfold _retransmit in H. destruct (exchanges s); [|invpairs; apply budget_refl].
   destruct (alookup rm_eqb (r, mid) l); [|invpairs; apply budget_frame; reflexivity].
   destruct (ex_counter e <? 4); [invpairs; apply budget_frame; reflexivity|].
-  destruct (tm_dispatch_error _ _ r) as [[s1 o1]|x] eqn:T; [|invpairs; apply budget_frame; reflexivity].
-  apply tm_dispatch_error_budget in T. invpairs. intros q. specialize (T q). exact T.
+  apply tm_dispatch_error_budget in H. intros q. specialize (H q). exact H.
 Qed.
 Lemma tm_shutdown_loop_budget : forall fuel s s' o, tm_shutdown_loop fuel s = (s', o) -> budget_ok s s' o.
 Proof.
